@@ -694,14 +694,15 @@ def cmdSrandmember (db : Db) (args : List Bytes) (obs : Option (List Bytes)) : D
   | [k, c] => match parseInt c with
     | none => (db, err)
     | some c =>
-      -- Redis takes the count from -LONG_MAX..LONG_MAX: the one i64 whose negation does not exist is refused
-      if c < -9223372036854775807 then (db, err) else
       match lookup db k with
       | none => if got.isEmpty then (db, bulks []) else (db, reject)
       | some ⟨.set xs, _⟩ =>
         if c ≥ 0 then
           if allIn got xs && nodupB got && got.length = min c.toNat xs.length then (db, bulks (sortBytes got)) else (db, reject)
         else
+          -- |count| picks with repetition are built in memory: more than 10^7 (down to i64::MIN, whose negation
+          -- does not exist) are refused (fix 1a0be8a; Redis refuses only LONG_MIN, and before looking at the key)
+          if c < -10000000 then (db, err) else
           if allIn got xs && got.length = (-c).toNat then (db, bulks (sortBytes got)) else (db, reject)
       | some _ => (db, wrongType)
   | _ => (db, err)
